@@ -62,7 +62,7 @@ CHECKS["C15"] = dict(engine="X", technique=X, design="§4 C15",
 
 CHECKS["C19"] = dict(engine="X", technique=X, design="§4 C19",
                      text="Bounded exhaustive case analysis driven by the solver: a runtime module and a stubs module with one member slot of every kind pair (function/attribute/class/alias/absent on each side: 25 pairs, mismatches included), a class with a method on both sides, and an 8-bit solver-chosen vector deciding which docstrings, annotations, extra members and overload lists exist on which side; merged through merge_stubs in both argument orders and through set_member's implicit merge in both insertion orders. Every clause of the statement is asserted, including equality of the result across the four routes.",
-                     note="Trusted: CrossHair/z3 as case splitter (the inputs are finite-domain); on-disk discovery of the three stub placements is not covered here (C14).")
+                     note="Trusted: CrossHair/z3 as case splitter (the inputs are finite-domain). Second obligation `placements` (harness/C19_placements.py): the three stub placements (sibling .pyi, .pyi inside the package, separate -stubs package) on the in-memory file system of C14, every listing order, requests by top-level name and dotted object paths: same, correct merged module; replayed on real directories.")
 
 CHECKS["C20"] = dict(engine="X", technique=X + "; git replaced by a contract model during the symbolic run, real git in the replay", design="§4 C20",
                      text="Bounded symbolic model checking of tmp_worktree and load_git with subprocess/TemporaryDirectory/load replaced by nondeterministic stubs: a contract model of `git worktree add/remove/prune` and `git branch -D`, a fake file system, and a load that returns or raises (LoadingError, SyntaxError, extension error, KeyboardInterrupt, ImportError) and may leave files in the checkout; the ref is a symbolic string (slashes, dots, dashes), the fault schedule one solver-chosen integer. Branch set, worktree list and temporary directories must be identical before and after; errors propagate unchanged. Counterexamples are replayed with real git in a scratch repository and the real load_git in a child interpreter with byte-code writing enabled.",
@@ -71,6 +71,10 @@ CHECKS["C20"] = dict(engine="X", technique=X + "; git replaced by a contract mod
 CHECKS["C03"] = dict(engine="X+S", technique=S + " (lambda marker machine); " + X + " (parse_strings decision; solver-driven case analysis of node shapes with CPython's parser as oracle)", design="§4 C03",
                      text="REDUCED CLAIM. (1) lambda_markers: ExprLambda.iterate is interpreted from its current source over parameter lists (<= 3, thorough 4) whose kinds are z3 values constrained to valid signatures; on each feasible path the yielded text is concrete, CPython's parser reads it back and one solver query decides that no kind vector following that path differs from what was parsed. (2) string_annotations: the parse_strings decision (postponed evaluation, explicit flag, typing/typing_extensions Literal, 10 positions of the string) on the real get_expression. (3) shapes: every node type of expressions._node_map as parent x child position x every node type as child (depth 2), element counts, operator indices and optional-part masks chosen by the solver; str(expr) is parsed by CPython and compared with the tree it was built from; flat/non-flat pieces concatenate to str(expr); every name is an ExprName element in order. Arbitrary nesting depth (the quantifier of the property) is NOT covered: depth 2 only, and obligation (3) is case analysis, not value-symbolic reasoning.",
                      note="Trusted: pysymex (validated against native ExprLambda.iterate on every valid parameter list n<=3 on each run), CrossHair/z3 as case splitter; hand-built ast nodes (only trees CPython's unparse->parse reproduces are considered). Known genuine defects excluded by narrow regions: operands rendered without parentheses, f-string conversion/format spec dropped, `from __future__ import annotations as x`. Depth > 2, statement contexts, and string contents of f-strings with quotes/braces are outside the claim.")
+
+CHECKS["C14"] = dict(engine="X", technique="CrossHair (z3) as exhaustive case splitter over file subsets x directory enumeration orders x placements, real finder/loader on an in-memory file system; reference of CPython's FileFinder/pkgutil rules validated against the real import system; counterexamples replayed on real directories", design="§4 C14",
+                     text="REDUCED CLAIM, solver-driven case analysis. The real ModuleFinder and GriffeLoader run on an in-memory file system (os.walk / pathlib predicates stubbed). Every subset of <= 2 (thorough 3) files of a 20-entry vocabulary (plus interacting triples/quadruples) x 7 layouts over two search paths (regular, native and pkgutil-style namespace in one/two portions, package twice, module-before-package, package-before-module); the solver chooses the permutation in which every directory lists its entries, the portion each file lives in and whether the package is requested by name or by directory path. Asserted: tree independent of the enumeration order and of the request form; every loaded module importable by CPython from that file (or a stub); every module pkgutil.walk_packages finds is loaded; package/sub-package/namespace classification. .pth files, editable installs and the real OS listing are outside the claim.",
+                     note="Trusted: CrossHair/z3 as case splitter (inputs are realised before the loader runs natively); the in-memory file system (validated against real directories under the same injected order on every grid point and counterexample); the FileFinder/pkgutil reference (validated against importlib.util.find_spec and pkgutil.walk_packages in a subprocess). Known genuine defects excluded by narrow regions: same module name provided by several runtime files; namespace portion shadowed by a regular sub-package.")
 
 NOT_APPLICABLE = [
     {"property_id": "C17", "reason": "static-vs-dynamic agreement needs importlib/inspect on live objects of concrete executable modules: nothing symbolic survives the import boundary, so a solver could only enumerate program texts (enumeration, not solving). See DESIGN.md §5."},
